@@ -25,7 +25,7 @@ from typing import Any, Dict, List, Optional, Sequence, Set, Tuple
 from engine.srcmatch import U
 from engine.fold import EnumMember, Folder
 from engine.kvtext import conversion_of, emits_in, flatten as kv_flatten
-from engine.model import AnalysisError, Program, base_names, dotted, mro, walk_no_nested
+from engine.model import class_fields, AnalysisError, Program, base_names, dotted, mro, walk_no_nested
 from engine.wire import Atom, Config, Extractor, atoms, by_tag, byte_size, expand, flatten, simplify, tags, value_count
 from rules.c10 import views_of
 from rules.c11_link import accessor_table, link_records, records, sig, split_field_check, string_pool_check
@@ -325,7 +325,17 @@ def run(ctx: Any, prog: Program) -> None:
             loops = [n for n in walk_no_nested(rd) if isinstance(n, ast.For) and any(isinstance(c, ast.Call) and dotted(c.func) == 'StaticProp' for c in ast.walk(n))]
             if len(loops) != 1:
                 raise AnalysisError('_lmp_read_props: per-prop loop not found')
-            split_field_check(ctx, 'C11.L10', bsp, f'props {m.name}', exr, exw, rrecs[-1], wrecs[-1], loops[0].body, 'flags', 'flags', acc_table, wr)
+            # the local that becomes StaticProp.flags: the constructor argument at the position (or keyword) of that field
+            sp_fields = class_fields(bsp, 'StaticProp')
+            sp_ctor = [c for c in ast.walk(loops[0]) if isinstance(c, ast.Call) and dotted(c.func) == 'StaticProp']
+            flags_var = 'flags'
+            if len(sp_ctor) == 1 and 'flags' in sp_fields:
+                kw_ = next((k.value for k in sp_ctor[0].keywords if k.arg == 'flags'), None)
+                pos_ = sp_fields.index('flags')
+                cand_ = kw_ if kw_ is not None else (sp_ctor[0].args[pos_] if pos_ < len(sp_ctor[0].args) else None)
+                if isinstance(cand_, ast.Name):
+                    flags_var = cand_.id
+            split_field_check(ctx, 'C11.L10', bsp, f'props {m.name}', exr, exw, rrecs[-1], wrecs[-1], loops[0].body, flags_var, 'flags', acc_table, wr)
         ctx.check('C11.L4', size == want, bsp, rd, f'static props {m.name}: the record read is {size} bytes but the version declares {want}', func='BSP._lmp_read_props', text=f'static props {m.name} size')
     # ---- L5 --------------------------------------------------------------------------------------------------
     n_chains = 0
